@@ -94,6 +94,7 @@ class C01(Prop):
             a_ = [[rng.randrange(4) for _ in range(n)] + [rng.randrange(4)] for _ in range(l1)]
             b_ = [[rng.randrange(4) for _ in range(n)] + [rng.randrange(4)] for _ in range(l2)]
             yield {"k": "table", "as": a_, "bs": b_}
+        yield {"k": "hugeprod", "n": 6, "l1": 1500, "l2": 2000, "pick": 400, "seed": self.seed + 77}
         # element types of the user's arrays: bits as uint8 / int8 / int32 / uint64 / float64, phases likewise.  A refusal
         # (exception) is accepted; a product that is returned must be the product
         for n in (1, 2):
@@ -110,6 +111,24 @@ class C01(Prop):
         if k == "mul":
             r = self._mul(scn, be)
             return [r] if r is not None else []
+        if k == "hugeprod":
+            import random as _r
+            rr = _r.Random(scn["seed"])
+            n, l1, l2 = scn["n"], scn["l1"], scn["l2"]
+            As = [[rr.randrange(4) for _ in range(n)] + [rr.randrange(4)] for _ in range(l1)]
+            Bs = [[rr.randrange(4) for _ in range(n)] + [rr.randrange(4)] for _ in range(l2)]
+            out = []
+            try:
+                a, b = be.plist(As), be.plist(Bs)
+                gs, ps, cs = be.utils.batch_dot(a.gs, a.ps, be.cvec([1] * l1), b.gs, b.ps, be.cvec([1] * l2))
+                from ..backend import bits_wire
+                for _ in range(scn["pick"]):
+                    i, j = rr.randrange(l1), rr.randrange(l2)
+                    k_ = i * l2 + j            # the documented layout: pair (i, j) at position i * L2 + j
+                    out.append({"op": "mul", "a": As[i], "b": Bs[j], "huge": [i, j], "ret": bits_wire(be.tolist(gs[k_]), ps[k_])})
+            except Exception as e:
+                out.append({"op": "mul", "a": As[0], "b": Bs[0], "exc": _exc(e)})
+            return out
         if k == "mulshared":
             a = scn["a"]
             b = a[:-1] + [(a[-1] + scn["e"]) % 4]
